@@ -3,6 +3,7 @@ import OpdaProofs.NoisyLogic
 import OpdaProofs.NoisyReal
 import OpdaProofs.NoisySmooth
 import OpdaProofs.NoisyConv
+import OpdaProofs.NoisyTable
 /-!
 # C06 — NoisyQuadratic cdf/pdf equal the quadratic law convolved with normal noise  *(proof, partial)*
 
@@ -17,10 +18,16 @@ is opaque to the kernel, so nothing is (or can be) proved *at* `Float`; the theo
   theorems), under the explicit side conditions `Lawful F` / `RangeOK F` where needed, and
 * at `ℝ` with `Φ`, `φ`, `rpow`, `cos`, `√` (`realFns`; the table is still arbitrary) for the analytic
   content: the recursion the code uses *is* the Gaussian partial-moment recursion, so for even `c`
-  Model = Spec formula, and for odd `c` Model = `Σ_pieces ∫ p_i dN`, within `sup|x^k − p|` of the Spec.
+  Model = Spec formula, and for odd `c` Model = `Σ_pieces ∫ p_i dN`, within `sup|x^k − p|` of the Spec, and
+* at `ℝ` **with the shipped table** (`tableR` = `Opda.Gen.tableQ`, regenerated from `_approximations.json` on every
+  run, cast to `ℝ`; section `shipped`): for every odd `c` that has a row (`c ∈ {1,3,5,7,9}`), both shapes, every `y`, the
+  cdf is within `1.02·max_error` of the Spec, `max_error` that of the entry the scale `o/(b−a)` selects — no hypothesis
+  on the pieces left (C19's 53 kernel-checked certificates discharge them); likewise `(b−a)·pdf` for odd `c ≥ 3` within
+  `(c/2)·1.02·max_error`.  These theorems import the generated files, so they are re-checked against the current JSON.
 
 **Not theorems** (decided every run by the correspondence + the mpmath oracle; the evidence says so):
-the 2.5e-5 / 1e-4 / 0.2 / 5e-5 accuracy figures, the accuracy of the Chebyshev fallback, of the
+the 2.5e-5 / 1e-4 / 0.2 / 5e-5 accuracy figures (the proved bounds for odd `c` are `1.02·max_error`, up to 8e-4 for the
+cdf of `c = 1`: weaker than 2.5e-5), the accuracy of the Chebyshev fallback, of the
 downward step for `k = −½` and of the `normal` regime, float rounding, `Φ(±∞) ∈ {0,1}` at `Float`, the
 step from "law of `Z + E`" to its mixture form `∫ Φ((y−z)/o) dF_Z(z)` (independence + Fubini; the mixture form
 is taken as the Spec here and is what the oracle integrates; likewise the mixture density for the pdf), and the constant `0.83·√(o/(b−a))` of the noiseless regime for `c = 1`
@@ -166,9 +173,9 @@ theorem pdf_even_model_eq_spec (d : Params ℝ) (k : ℕ) (hc : d.c = 2 * k + 2)
 
 /-- **odd `c` (1, 3, …), convex: Model within `ε` of Spec** whenever the selected pieces tile `[0,1]` and are `ε`-accurate
 (the provable uniform bound: `ε ≤ 1.02·max_error` of the entry by C19; up to 8e-4 — the 2.5e-5 of the property is
-*not* implied and is decided numerically).  `_partial`: the concave shape is analogous but not written out; the
-hypotheses on the selected pieces are C19's for the shipped table and are not available for the Chebyshev
-fallback (which serves the pdf of `c = 1` only). -/
+*not* implied and is decided numerically).  `_partial`: the bound is the provable `ε`, not the property's 2.5e-5; the
+hypotheses on the selected pieces are discharged for the shipped table in section `shipped` below and are not
+available for the Chebyshev fallback (which serves the pdf of `c = 1` only).  Concave shape: next theorem. -/
 theorem cdf_odd_convex_within_eps_partial (d : Params ℝ) (k : ℕ) (hc : d.c = 2 * k + 1) (hcv : d.convex = true)
     (hab : d.a ≤ d.b) (hp : pointMass (realFns T ninf pinf) d = false)
     (h : regime (realFns T ninf pinf) d = .nothing) (y ε : ℝ) (hε0 : 0 ≤ ε)
@@ -184,6 +191,43 @@ theorem cdf_odd_convex_within_eps_partial (d : Params ℝ) (k : ℕ) (hc : d.c =
         - mixture (((2 * k + 1 : ℕ) : ℝ) / 2) (d.o / (d.b - d.a)) ((y - d.a) / (d.b - d.a))| ≤ ε :=
   cdf_odd_convex_error T ninf pinf d k hc hcv hab hp h y ε hε0 hchain hε
 
+/-- **odd `c`, concave: Model within `ε` of Spec** `1 − H((b−y)/(b−a))` under the same two hypotheses on the selected
+pieces (the analogue of `cdf_odd_convex_within_eps_partial`, written out).  `_partial` for the same reason. -/
+theorem cdf_odd_concave_within_eps_partial (d : Params ℝ) (k : ℕ) (hc : d.c = 2 * k + 1) (hcv : d.convex = false)
+    (hab : d.a ≤ d.b) (hp : pointMass (realFns T ninf pinf) d = false)
+    (h : regime (realFns T ninf pinf) d = .nothing) (y ε : ℝ) (hε0 : 0 ≤ ε)
+    (hchain : ChainFrom 0
+      (((approxCoeffs (realFns T ninf pinf) (locOf d y) (d.o / (d.b - d.a)) ((2 * k + 1 : ℕ) : ℤ)).1.zip
+        (approxCoeffs (realFns T ninf pinf) (locOf d y) (d.o / (d.b - d.a)) ((2 * k + 1 : ℕ) : ℤ)).1.tail).zip
+        (approxCoeffs (realFns T ninf pinf) (locOf d y) (d.o / (d.b - d.a)) ((2 * k + 1 : ℕ) : ℤ)).2) 1)
+    (hε : ∀ pc ∈ (((approxCoeffs (realFns T ninf pinf) (locOf d y) (d.o / (d.b - d.a)) ((2 * k + 1 : ℕ) : ℤ)).1.zip
+        (approxCoeffs (realFns T ninf pinf) (locOf d y) (d.o / (d.b - d.a)) ((2 * k + 1 : ℕ) : ℤ)).1.tail).zip
+        (approxCoeffs (realFns T ninf pinf) (locOf d y) (d.o / (d.b - d.a)) ((2 * k + 1 : ℕ) : ℤ)).2),
+      ∀ x ∈ Set.Icc pc.1.1 pc.1.2, |x ^ (((2 * k + 1 : ℕ) : ℝ) / 2) - polyEval pc.2 0 x| ≤ ε) :
+    |cdf (realFns T ninf pinf) d y
+        - (1 - mixture (((2 * k + 1 : ℕ) : ℝ) / 2) (d.o / (d.b - d.a)) ((d.b - y) / (d.b - d.a)))| ≤ ε :=
+  cdf_odd_concave_error T ninf pinf d k hc hcv hab hp h y ε hε0 hchain hε
+
+/-- **density, odd `c = 2k+3 ≥ 3`, both shapes: `(b−a)·pdf` within `(c/2)·ε` of the mixture density** whenever the pieces
+selected for the order `(c−2)/2 = (2k+1)/2` (the moment `pdf` asks for) tile `[0,1]` and are `ε`-accurate.  `_partial`: the
+bound is the provable one, not the property's `1e-4·max(1,v)`; `c = 1` (order `−½`: Chebyshev fallback / one step of
+downward recursion) is out of scope. -/
+theorem pdf_odd_within_eps_partial (d : Params ℝ) (k : ℕ) (hc : d.c = 2 * k + 3) (hab : d.a ≤ d.b)
+    (hp : pointMass (realFns T ninf pinf) d = false) (h : regime (realFns T ninf pinf) d = .nothing) (y ε : ℝ)
+    (hε0 : 0 ≤ ε)
+    (hchain : ChainFrom 0
+      (((approxCoeffs (realFns T ninf pinf) (locOf d y) (d.o / (d.b - d.a)) ((2 * k + 1 : ℕ) : ℤ)).1.zip
+        (approxCoeffs (realFns T ninf pinf) (locOf d y) (d.o / (d.b - d.a)) ((2 * k + 1 : ℕ) : ℤ)).1.tail).zip
+        (approxCoeffs (realFns T ninf pinf) (locOf d y) (d.o / (d.b - d.a)) ((2 * k + 1 : ℕ) : ℤ)).2) 1)
+    (hε : ∀ pc ∈ (((approxCoeffs (realFns T ninf pinf) (locOf d y) (d.o / (d.b - d.a)) ((2 * k + 1 : ℕ) : ℤ)).1.zip
+        (approxCoeffs (realFns T ninf pinf) (locOf d y) (d.o / (d.b - d.a)) ((2 * k + 1 : ℕ) : ℤ)).1.tail).zip
+        (approxCoeffs (realFns T ninf pinf) (locOf d y) (d.o / (d.b - d.a)) ((2 * k + 1 : ℕ) : ℤ)).2),
+      ∀ x ∈ Set.Icc pc.1.1 pc.1.2, |x ^ (((2 * k + 1 : ℕ) : ℝ) / 2) - polyEval pc.2 0 x| ≤ ε) :
+    |(d.b - d.a) * pdf (realFns T ninf pinf) d y
+        - mixtureDensity (((2 * k + 3 : ℕ) : ℝ) / 2) (d.o / (d.b - d.a)) (locOf d y)|
+      ≤ ((2 * k + 3 : ℕ) : ℝ) / 2 * ε :=
+  pdf_odd_error T ninf pinf d k hc hab hp h y ε hε0 hchain hε
+
 /-- **T5 `noiseless_bound` (`c ≥ 2`)**: for `0 < o < 1e-6 (b−a)` the value returned (the noise-free law, the noise
 being deliberately ignored) is within `0.4·c·o/(b−a)` of its convolution with `N(0, o²)`, i.e. of the law of
 `Z + E` (Lipschitz constant `c/(2(b−a))` of the noise-free cdf times `E|E| = o√(2/π)`).  The `c = 1` clause
@@ -196,6 +240,98 @@ theorem noiseless_bound (d : Params ℝ) (hab : d.a < d.b) (hc : 2 ≤ d.c) (ho 
   Opda.Noisy.noiseless_bound T ninf pinf d hab hc ho hp h y
 
 end real
+
+/-! ### end to end with the shipped table (C06 ∘ C19)
+
+`tableR := castTable Opda.Gen.tableQ`: the table regenerated from `/repo/src/opda/_approximations.json` on every run, every
+double read as the exact real it denotes, in the form the model's `Fns.table` field takes (same rows, order and keys;
+`max_error` dropped, the algorithm never reads it).  `rowOf T m` is the first row of key `m` (`T.find? (·.1 == m)`),
+`selectR es σ` the first entry with `min_scale ≤ σ` (`es.find? (min_scale ≤ σ)`): the code's two look-ups, which the
+model's `tableLookup` performs on `tableR` (`Opda.Noisy.tableLookup_castTable`; at a rational scale `selectR` is C19's
+`select`: `Opda.Noisy.selectR_cast`).  The proofs use `Opda.Gen.Cert.struct_ok` and `Opda.Gen.Cert.table_bound` (53
+kernel-checked certificates): a change of the JSON that breaks a certificate breaks these theorems. -/
+section shipped
+open Opda.Gen Opda.Table
+variable (ninf pinf : ℝ)
+
+/-- the shipped table has a row for each of the keys 1, 3, 5, 7, 9 (`2·exponent`): the odd `c` of the property's
+range `1..10` for the cdf, and `c − 2` for the density of `c ∈ {3,5,7,9}` (and of the out-of-range 11). -/
+theorem shipped_table_keys (m : ℕ) (hm : m ∈ [1, 3, 5, 7, 9]) : ∃ row ∈ tableQ, row.1 = m :=
+  Opda.Noisy.shipped_key_present m hm
+
+/-- **odd `c`, both shapes, shipped table, series regime — no hypothesis on the pieces left.**  For every `a ≤ b`, `o` in
+the series regime (`1e-6(b−a) ≤ o < 10(b−a)`, which forces `a < b`, `o > 0`), every odd `c` that has a row in the shipped
+table: the scale `o/(b−a)` selects an entry `e` of that row, and **at every real `y`** the model's cdf, evaluated in exact
+real arithmetic with `Φ`, `φ` and the shipped coefficients, is within `1.02·max_error(e)` of the Spec
+`H((y−a)/(b−a))` (convex) resp. `1 − H((b−y)/(b−a))` (concave), `H(t) = ∫₀¹ Φ((t−x)/s) d(x^{c/2})`, `s = o/(b−a)`.
+`_partial`: `1.02·max_error` (currently 2.5e-7 … 8.1e-4 depending on the entry; ≤ 2.5e-5 only for `c ∈ {7, 9}` and for the
+small-scale entries of `c ∈ {1, 3, 5}`) is in general **weaker** than the property's 2.5e-5, which is a numerical fact
+decided on every run by the correspondence and the mpmath oracle; float rounding is not covered. -/
+theorem cdf_odd_shipped_table_partial (d : Params ℝ) (k : ℕ) (hc : d.c = 2 * k + 1) (hab : d.a ≤ d.b)
+    (hp : pointMass (realFns tableR ninf pinf) d = false) (h : regime (realFns tableR ninf pinf) d = .nothing)
+    (hkey : ∃ row ∈ tableQ, row.1 = d.c) :
+    ∃ row e, rowOf tableQ d.c = some row ∧ selectR row.2 (d.o / (d.b - d.a)) = some e ∧
+      ∀ y : ℝ, |cdf (realFns tableR ninf pinf) d y
+          - (if d.convex then mixture ((d.c : ℝ) / 2) (d.o / (d.b - d.a)) ((y - d.a) / (d.b - d.a))
+             else 1 - mixture ((d.c : ℝ) / 2) (d.o / (d.b - d.a)) ((d.b - y) / (d.b - d.a)))|
+        ≤ 1.02 * (e.maxError : ℝ) :=
+  Opda.Noisy.cdf_odd_shipped ninf pinf d k hc hab hp h hkey
+
+/-- the uniform form: whatever the scale, the error is at most `1.02 ·` the largest `max_error` recorded in the row of
+`c` (`rowMaxError row = max over the row's entries`).  `_partial` as above. -/
+theorem cdf_odd_shipped_table_uniform_partial (d : Params ℝ) (k : ℕ) (hc : d.c = 2 * k + 1) (hab : d.a ≤ d.b)
+    (hp : pointMass (realFns tableR ninf pinf) d = false) (h : regime (realFns tableR ninf pinf) d = .nothing)
+    (row : ℕ × List EntryQ) (hrow : rowOf tableQ d.c = some row) (y : ℝ) :
+    |cdf (realFns tableR ninf pinf) d y
+        - (if d.convex then mixture ((d.c : ℝ) / 2) (d.o / (d.b - d.a)) ((y - d.a) / (d.b - d.a))
+           else 1 - mixture ((d.c : ℝ) / 2) (d.o / (d.b - d.a)) ((d.b - y) / (d.b - d.a)))|
+      ≤ 1.02 * (rowMaxError row : ℝ) :=
+  Opda.Noisy.cdf_odd_shipped_uniform ninf pinf d k hc hab hp h row hrow y
+
+/-- **density, odd `c ≥ 3`, both shapes, shipped table, series regime.**  `pdf` needs the moment of order `(c−2)/2`; if
+the shipped table has a row of key `c − 2` (`c ∈ {3,5,7,9}`), the scale selects an entry `e` of it and at every real `y`
+`(b−a)·pdf(y)` is within `(c/2)·1.02·max_error(e)` of the mixture density `h(loc) = ∫₀¹ dN(loc, s²)(x) d(x^{c/2})`.
+`_partial`: weaker than the property's `1e-4·max(1,v)` (decided numerically); `c = 1` (order `−½`, Chebyshev fallback /
+downward step) is not covered. -/
+theorem pdf_odd_shipped_table_partial (d : Params ℝ) (k : ℕ) (hc : d.c = 2 * k + 3) (hab : d.a ≤ d.b)
+    (hp : pointMass (realFns tableR ninf pinf) d = false) (h : regime (realFns tableR ninf pinf) d = .nothing)
+    (hkey : ∃ row ∈ tableQ, row.1 = d.c - 2) :
+    ∃ row e, rowOf tableQ (d.c - 2) = some row ∧ selectR row.2 (d.o / (d.b - d.a)) = some e ∧
+      ∀ y : ℝ, |(d.b - d.a) * pdf (realFns tableR ninf pinf) d y
+            - mixtureDensity ((d.c : ℝ) / 2) (d.o / (d.b - d.a)) (locOf d y)|
+          ≤ (d.c : ℝ) / 2 * (1.02 * (e.maxError : ℝ)) :=
+  Opda.Noisy.pdf_odd_shipped ninf pinf d k hc hab hp h hkey
+
+theorem pdf_odd_shipped_table_uniform_partial (d : Params ℝ) (k : ℕ) (hc : d.c = 2 * k + 3) (hab : d.a ≤ d.b)
+    (hp : pointMass (realFns tableR ninf pinf) d = false) (h : regime (realFns tableR ninf pinf) d = .nothing)
+    (row : ℕ × List EntryQ) (hrow : rowOf tableQ (d.c - 2) = some row) (y : ℝ) :
+    |(d.b - d.a) * pdf (realFns tableR ninf pinf) d y
+        - mixtureDensity ((d.c : ℝ) / 2) (d.o / (d.b - d.a)) (locOf d y)|
+      ≤ (d.c : ℝ) / 2 * (1.02 * (rowMaxError row : ℝ)) :=
+  Opda.Noisy.pdf_odd_shipped_uniform ninf pinf d k hc hab hp h row hrow y
+
+/-- **`c ∈ {7, 9}`: the property's 2.5e-5 itself, as a theorem in exact real arithmetic.**  Every entry of the rows of key
+7 and 9 of the shipped table records `1.02·max_error ≤ 2.5e-5` (checked by the kernel on the regenerated table), so for
+both shapes, every scale of the series regime and every real `y` the model's cdf is within 2.5e-5 of the Spec.  (What
+remains compared only for these `c`: float rounding, and the regimes other than the series regime.) -/
+theorem cdf_c7_c9_shipped_table_tolerance (d : Params ℝ) (hc : d.c = 7 ∨ d.c = 9) (hab : d.a ≤ d.b)
+    (hp : pointMass (realFns tableR ninf pinf) d = false) (h : regime (realFns tableR ninf pinf) d = .nothing)
+    (y : ℝ) :
+    |cdf (realFns tableR ninf pinf) d y
+        - (if d.convex then mixture ((d.c : ℝ) / 2) (d.o / (d.b - d.a)) ((y - d.a) / (d.b - d.a))
+           else 1 - mixture ((d.c : ℝ) / 2) (d.o / (d.b - d.a)) ((d.b - y) / (d.b - d.a)))| ≤ 2.5e-5 :=
+  Opda.Noisy.cdf_c7_c9_shipped ninf pinf d hc hab hp h y
+
+/-- **`c = 9`: the property's `1e-4·max(1, v)` for the density, as a theorem in exact real arithmetic**: the row of key 7
+records `(9/2)·1.02·max_error ≤ 1e-4`, so `(b−a)·pdf(y)` is within `1e-4` of the mixture density `v` at every `y`. -/
+theorem pdf_c9_shipped_table_tolerance (d : Params ℝ) (hc : d.c = 9) (hab : d.a ≤ d.b)
+    (hp : pointMass (realFns tableR ninf pinf) d = false) (h : regime (realFns tableR ninf pinf) d = .nothing)
+    (y : ℝ) :
+    |(d.b - d.a) * pdf (realFns tableR ninf pinf) d y
+        - mixtureDensity ((d.c : ℝ) / 2) (d.o / (d.b - d.a)) (locOf d y)| ≤ 1e-4 :=
+  Opda.Noisy.pdf_c9_shipped ninf pinf d hc hab hp h y
+
+end shipped
 
 /-! ### non-vacuity -/
 
@@ -219,6 +355,15 @@ example : pointMass (realFns [] 0 0) { a := 0, b := 1, c := 3, o := 1/10, convex
 /-- two pieces tiling `[0, 1]` -/
 example : ChainFrom 0 [((0, 1/2), [0, 1]), ((1/2, 1), [1/4, 1/2])] 1 :=
   .cons 0 (1/2) 1 _ _ (by norm_num) (.cons (1/2) 1 1 _ _ (by norm_num) (.nil 1))
+
+/-- the hypotheses of the shipped-table theorems are satisfiable: `a=0, b=1, c=3, o=1/10` (either shape) is in the
+series regime of the instance that reads the shipped table, and the table has rows of key `c = 3` and `c − 2 = 1` -/
+example (cv : Bool) : pointMass (realFns tableR 0 0) { a := 0, b := 1, c := 3, o := 1/10, convex := cv } = false
+    ∧ regime (realFns tableR 0 0) { a := 0, b := 1, c := 3, o := 1/10, convex := cv } = .nothing
+    ∧ (∃ row ∈ Opda.Gen.tableQ, row.1 = 3) ∧ (∃ row ∈ Opda.Gen.tableQ, row.1 = 3 - 2) := by
+  refine ⟨?_, ?_, shipped_table_keys 3 (by simp), shipped_table_keys 1 (by simp)⟩
+  · rw [Bool.eq_false_iff, Ne, pointMass_iff (realFns_lawful tableR 0 0)]; norm_num
+  · rw [regime_nothing_iff (realFns_lawful tableR 0 0)]; norm_num
 
 end Opda.Props.C06
 
